@@ -1,6 +1,11 @@
 use crate::Comp;
+pub mod qconc;
+pub mod queue;
 pub mod time;
 
 pub static ALL: &[Comp] = &[
     Comp { name: "time", gen: time::gen, exec: time::exec, isolate_ms: 0 },
+    Comp { name: "oq", gen: queue::gen_oq, exec: queue::exec_oq, isolate_ms: 1000 },
+    Comp { name: "qconc", gen: qconc::gen, exec: qconc::exec, isolate_ms: 20000 },
+    Comp { name: "pq", gen: queue::gen_pq, exec: queue::exec_pq, isolate_ms: 1000 },
 ];
